@@ -293,6 +293,7 @@ class World:
         self.sizes = sizes
         self.cap = cap
         self.fail = P["f"]
+        self.fail_kind = P.get("fk", 0)
         self.problems: list[str] = []
         self.active: list = []          # tensors currently materialised (between start of tofile and its end)
         self.evaluating: dict = {}      # id(tensor object) -> thread
@@ -333,6 +334,10 @@ def _smax(a, b):
     return max(a, b)
 
 
+class _Interrupted(BaseException):
+    """a failure that is NOT an Exception (KeyboardInterrupt / SystemExit / CancelledError class)"""
+
+
 class DuckTensor:
     """TensorProtocol surface the writers use: name, nbytes, dtype, shape, tofile"""
 
@@ -359,6 +364,8 @@ class DuckTensor:
         s.yield_point("materialise")
         try:
             if w.fail == self.idx:
+                if w.fail_kind == 1:
+                    raise _Interrupted(f"tensor {self.name} failed (BaseException)")
                 raise RuntimeError(f"tensor {self.name} failed")
             w.writes.append((self.idx, file.pos, file, me))
             self.uses += 1
@@ -391,6 +398,7 @@ CONFIGS = {
     "shards2x2w4": ("shards", 4, 4, None),              # 2 shard drivers, serial inner writers, shared budget
     "shards2x2w6": ("shards", 4, 6, None),              # 2 shard drivers with 2 inner workers each
     "shards3w3": ("shards3", 3, 3, None),               # 3 single-tensor shards
+    "shards21w6-shared": ("shards21", 3, 6, [0, 1, 0]), # a 2-tensor shard (parallel inner writer) and a 1-tensor shard (serial) that write the SAME tensor object
 }
 
 
@@ -405,6 +413,8 @@ def make_case(tier, key):
     ranges["cap"] = (1, None)
     nobj = len(set(aliases)) if aliases else n
     ranges["f"] = (-1, -1) if failmode == "ok" else (failmode, failmode)
+    if failmode != "ok":
+        ranges["fk"] = (0, 1)     # the failing tensor raises an Exception or a BaseException that is not an Exception
 
     def assume(terms):
         # shard of the size space: which tensor objects are larger than the whole budget
@@ -485,7 +495,7 @@ def run_config(P, mode, n, workers, aliases, preempt, window=None):
                 wr.write()
             else:
                 per = 2 if mode == "shards" else 1
-                groups = [tensors[i:i + per] for i in range(0, n, per)]
+                groups = [tensors[i:i + per] for i in range(0, n, per)] if mode != "shards21" else [tensors[0:2], tensors[2:3]]
                 created = []
                 wet = zsym.rebind(E._write_external_tensors, _shard_tensors=lambda ts, *a, **k: groups,
                                   convert_tensors_to_external=zsym.rebind(
@@ -510,7 +520,7 @@ def run_config(P, mode, n, workers, aliases, preempt, window=None):
                 wet = zsym.rebind(wet, _ByteBudget=spy)
                 wet(tensors, "/m", "data.bin", max_shard_size_bytes=1, callback=cb, max_workers=workers, max_in_flight_bytes=cap,
                     alignment=None, align_threshold=0)
-        except RuntimeError as e:
+        except (RuntimeError, _Interrupted) as e:
             if "failed" not in str(e):
                 raise
             outcome["raised"] = str(e)
@@ -569,7 +579,8 @@ def run_config(P, mode, n, workers, aliases, preempt, window=None):
 
 PLAN = {
     # tier -> [(config, preemptions without failure, preemptions with a failing tensor)]
-    "quick": [("par2w2", 2, 1), ("par3w2", 1, 1), ("par3w2-shared", 1, 1), ("shards2x2w4", 1, 0), ("shards3w3", 1, 0), ("shards2x2w6", 2, None, ["fit", 0], True)],
+    "quick": [("par2w2", 2, 1), ("par3w2", 1, 1), ("par3w2-shared", 1, 1), ("shards2x2w4", 1, 0), ("shards3w3", 1, 0), ("shards2x2w6", 2, None, ["fit", 0], True),
+              ("shards21w6-shared", 1, None)],
     # thorough: small configurations with full preemption semantics; larger ones delay-bounded (deviations from a
     # round-robin default order, also at blocking points) with the position of the deviations sharded into windows
     "thorough": [("par2w2", 3, 2), ("par3w2", 2, 1), ("par3w2-shared", 2, 1), ("par3w3", 1, 1), ("shards2x2w4", 1, 1), ("shards3w3", 1, 1),
